@@ -524,7 +524,8 @@ func (s *State) diffIOSACLs(al, bl []*cmd, diff []edit.Range) {
 				moveOK = moveOK && action0 == getIOSAction(b)
 				p := s.printNetspocCmd(b)
 				p = stripLogRX.ReplaceAllLiteralString(p, "")
-				if cmdPos, found := delMap[p]; found {
+				// Must not move cmd again, if it already was moved.
+				if cmdPos, found := delMap[p]; found && cmdPos.cmd != nil {
 					downOK := true
 					for _, b2 := range bl[r.LowB+i+1 : r.HighB] {
 						if getIOSAction(b2) != getIOSAction(b) {
